@@ -20,6 +20,69 @@ def fold(terms):
 
 
 def vcs(B):
+    per_point(B)
+    plane_estimation(B)
+
+
+def plane_estimation(B):
+    P = 'romea::core::NormalAndCurvatureEstimation<Eigen::Matrix<double, 3, 1, 0>>'
+    B.unit('src/pointset/KdTree.cpp')
+    B.prog.options['opaque_calls'] = {'findNearestNeighbors', 'planeEstimation_'}
+    B.function('NCE3__planeEstimation', P, 'planeEstimation_')
+    B.extract()
+    import symalg
+    K, NP = 2, 3
+    BND = 'NormalAndCurvatureEstimation<Eigen::Vector3d>::planeEstimation_ with %d neighbours in a cloud of %d points; kd-tree search and eigen-solver by assumed contract' % (K, NP)
+    rec = [r for r in B.prog.records if r.startswith('NormalAndCurvatureEstimation')][0]
+    obj = B.sx.arbitrary_value(('struct', rec), 'pe_prior')
+    obj['numberOfNeighborPoints_'] = str(K)
+    Pt = [B.vec('c%d' % k, 3) for k in range(NP)]
+    pts = Cell({'size': str(NP), 'data': [list(p) for p in Pt]})
+    nb = [2, 0]                      # the neighbours the kd-tree reports for the query point (any indices; concrete here so that the accumulation is executable)
+    asked = []
+
+    def knn(args):
+        asked.append(args)
+        obj['neighborIndexes_'] = {'size': str(K), 'data': [str(i) for i in nb]}
+        return '0'
+    fk = [f for f in B.prog.cname_of_id.values() if 'findNearestNeighbors' in f]
+    if len(fk) != 1:
+        from front import ExtractError
+        raise ExtractError('C09 spec: planeEstimation_ no longer calls findNearestNeighbors exactly as one callee')
+    B.overrides[fk[0]] = knn
+    B.call('NCE3__planeEstimation', obj, pts, Cell(None), '1')
+    obl = B.take_obligations()
+    fl = ['NCE3__planeEstimation']
+    # the matrix handed to the eigen-solver: the arguments of the uninterpreted eigenvalue function
+    l0 = symalg.sparse(obj['eigenValues_'][0])
+    if not (isinstance(l0, list) and l0[0] == 'f_eigh3_l0' and len(l0) == 10):
+        from front import ExtractError
+        raise ExtractError('C09 spec: eigenValues_ is not read from a SelfAdjointEigenSolver of a 3x3 matrix')
+    Cm = [symalg.sshow(x) for x in l0[1:]]
+    mean = [app('/', fold([Pt[i][a] for i in nb]), str(float(K))) for a in range(3)]
+    for a in range(3):
+        for b in range(3):
+            want = app('/', fold([mul(sub(Pt[i][a], mean[a]), sub(Pt[i][b], mean[b])) for i in nb]), str(float(K)))
+            B.vc('plane_estimation.matrix_given_to_the_eigen_solver[%d,%d].is_the_covariance_of_the_reported_neighbours' % (a, b), app('=', Cm[3 * a + b], want), functions=fl, bounded=BND, timeout=60)
+    for i in range(3):
+        B.vc('plane_estimation.eigenvalue[%d].is_stored_from_the_solver' % i, app('=', obj['eigenValues_'][i], app('f_eigh3_l%d' % i, *Cm)), functions=fl, bounded=BND)
+        for j in range(3):
+            B.vc('plane_estimation.eigenvector_matrix[%d,%d].is_stored_from_the_solver' % (i, j), app('=', obj['eigenVectors_'][3 * i + j], app('f_eigh3_v%d%d' % (i, j), *Cm)), functions=fl, bounded=BND)
+    def val(c):
+        if isinstance(c, Cell):
+            return c.v
+        if hasattr(c, 'container') and hasattr(c, 'key'):
+            return c.container[c.key]
+        return c
+    if asked:
+        q = val(asked[0][1])
+        if isinstance(q, Cell):
+            q = q.v
+        asked[0] = [asked[0][0], q, val(asked[0][2])]
+        B.vc('plane_estimation.neighbours_are_asked_for_the_query_point_and_count', land(*([app('=', asked[0][1][a], Pt[1][a]) for a in range(3)] + [app('=', asked[0][2], str(K))])), functions=fl, bounded=BND)
+
+
+def per_point(B):
     B.unit('src/pointset/algorithms/NormalAndCurvatureEstimation.cpp')
     P = 'romea::core::NormalAndCurvatureEstimation<Eigen::Matrix<double, 3, 1, 0>>'
     B.prog.options['opaque_calls'] = {'planeEstimation_'}
